@@ -298,6 +298,36 @@ def clause6_event_payload(ctx, P, cg):
            (fixed[0].fn.srcname if fixed else "", fixed[0].loc if fixed else ""))
 
 
+def clause8_fetch_identity(ctx, P):
+    """a fetch is found again (unfetch, duplicate test) by its id: two ids are the same iff their types agree and their VALUES agree
+    in full - numbers by valuedouble (valueint saturates at INT_MAX and drops the fraction: 7 and 7.5, or two millisecond time
+    stamps, would name the same fetch), strings by strcmp"""
+    f = P.fn("fetch.c:ids_equal")
+    FULL = {"type": "icmp", "valuedouble": "fcmp", "valuestring": "strcmp"}
+    pairs = []
+
+    def side(t):
+        b = None
+        for fld in ("type", "valuedouble", "valuestring", "valueint", "string"):
+            x = Q.is_field_load(t, "struct.cJSON", fld)
+            if x is not None and x[0] == "param":
+                b = (x[1], fld)
+        return b
+    for i in f.all_insts():
+        if i.op in ("icmp", "fcmp") or (i.op == "call" and i.callee and P.srcname_of(i.callee) in ("strcmp", "strncmp", "memcmp")):
+            a, b = side(P.term(f, i.a[0])), side(P.term(f, i.a[1]))
+            if a and b and a[0] != b[0]:
+                how = i.op if i.op != "call" else P.srcname_of(i.callee)
+                pairs.append((a[1], b[1], how, i))
+    wrong = [x for x in pairs if x[0] != x[1] or FULL.get(x[0]) != x[2]]
+    have = {x[0] for x in pairs if x not in wrong}
+    ctx.ob("C01.5 R-PAIR", f, "fetch-ids-compared-in-full", not wrong and have == set(FULL),
+           ("ids_equal compares %s with %s by %s at %s: two different ids (numbers beyond INT_MAX, numbers differing in the fraction) "
+            "name the same fetch - an unfetch removes somebody's live fetch, whose replica goes stale" %
+            (wrong[0][0], wrong[0][1], wrong[0][2], wrong[0][3].loc)) if wrong else
+           "ids_equal compares %s of the two ids (expected type, valuedouble, valuestring)" % sorted(have))
+
+
 def run(ctx):
     for cfg in ctx.configs(["default"] if ctx.tier == "quick" else None):
         P, cg = cfg.P, cfg.cg
@@ -308,3 +338,4 @@ def run(ctx):
         clause5_teardown(ctx, P)
         clause6_event_payload(ctx, P, cg)
         clause7_attach_all(ctx, P, cg)
+        clause8_fetch_identity(ctx, P)
